@@ -150,6 +150,17 @@ def _sym_const(v, beta):
     return v
 
 
+def _sym_node(res, beta, l=None, r=None):
+    """The symbolic back end re-associates sums and products and folds their numeric parts into one constant, which it
+    then prints with 15 digits: any partial sum of the terms of a +/- chain can be such a constant. At a sample point
+    (beta non-empty) every +/- node therefore adds 1e-14 (|left| + |right|) to the error bound and every other node
+    1e-14 |result| (integer results of integer operands stay exact)."""
+    if not beta or not isinstance(res, V) or res.kind == "int":
+        return res
+    extra = N.mpf("1e-14") * ((l.mag + r.mag) if l is not None else abs(res.v))
+    return V(res.kind, res.v, res.err + extra)
+
+
 def ev(x, env, beta=None):
     """Evaluate a surface expression / tree node to a value."""
     beta = beta or {}
@@ -201,7 +212,7 @@ def ev(x, env, beta=None):
     if isinstance(x, A.Paren):
         return ev(x.e, env, beta)
     if isinstance(x, A.Fn):
-        return N.func(x.name, _need_num(ev(x.e, env, beta)))
+        return _sym_node(N.func(x.name, _need_num(ev(x.e, env, beta))), beta)
     if isinstance(x, A.TSign):
         v = _need_num(ev(x.e, env, beta))
         return N.neg(v) if x.op == "-" else v
@@ -218,15 +229,15 @@ def ev(x, env, beta=None):
         l = _need_num(lv)
         r = _need_num(rv)
         if x.op == "+":
-            return N.add(l, r)
+            return _sym_node(N.add(l, r), beta, l, r)
         if x.op == "-":
-            return N.add(l, r, sub=True)
+            return _sym_node(N.add(l, r, sub=True), beta, l, r)
         if x.op == "*":
-            return N.mul(l, r)
+            return _sym_node(N.mul(l, r), beta)
         if x.op == "/":
-            return N.div(l, r)
+            return _sym_node(N.div(l, r), beta)
         if x.op == "**":
-            return N.power(l, r)
+            return _sym_node(N.power(l, r), beta)
     raise RefModelError("cannot evaluate %r" % (x,))
 
 
@@ -443,6 +454,9 @@ def loop_values(loop, env):
         elif loop.vtype == "float":
             if not (isinstance(v, V) and v.kind in ("int", "real")):
                 raise RefModelError("float loop over non-real")
+            if v.kind == "int" and int(float(v.v)) != v.v:
+                # an integer that a float cannot hold is not "of the loop type" (the loader refuses a conversion that changes the value)
+                raise RefModelError("float loop over an integer that is not a float value")
             out.append(N.cast("float", v))
         elif loop.vtype == "bool":
             if not isinstance(v, RBool):
